@@ -31,6 +31,12 @@ def match(ev: dict, pat: dict) -> bool:
             ups = ev.get("updates") or []
             if not any(all(u.get(kk) == vv for kk, vv in v.items()) for u in ups):
                 return False
+        elif k == "has":
+            if ev.get(v) is None:
+                return False
+        elif k.endswith("_ge") and isinstance(v, (int, float)):
+            if ev.get(k[:-3]) is None or ev.get(k[:-3]) < v:
+                return False
         elif k == "name_re":
             if not re.search(v, str(ev.get("name", ""))):
                 return False
@@ -49,6 +55,7 @@ class Execution:
         self.clock = VClock(k=opts.get("k", 50.0))
         self.backend = Backend(self.clock, input_payload=scenario.get("input", "{}"))
         self.backend.timer_lag = float((scenario.get("world") or {}).get("timer_lag", 0.0))
+        self.backend.empty_page_every = int((scenario.get("pages") or {}).get("empty_every", 0))
         self.backend.on_apply = self._on_apply
         self.trace: list[dict] = []
         self.entries: dict[str, int] = {}
